@@ -111,11 +111,17 @@ def run(rep, tier):
         rep.count("leak_scans", info["leak_checked"])
 
     n = 40 if tier == "quick" else 120
-    core.run_hypothesis(rep, gen.case_strategy(lambda u: build_case(u, tier), 4096), body, n,
-                        describe=lambda c: dict(v3hist.describe(c["cfg"], c["pattern"]), n=c["n"]))
+    if core.run_hypothesis(rep, gen.case_strategy(lambda u: build_case(u, tier), 4096), body, n,
+                           describe=lambda c: dict(v3hist.describe(c["cfg"], c["pattern"]), n=c["n"])):
+        return
+    # sessions of the real clients that install their keys after discovery: nothing of a privacy session's requests may
+    # go out in clear afterwards
+    v3hist.discovered_stage(rep, G, "C14", 120 if tier == "quick" else 2500, True, True, ("priv-flag-clear", "privacy-mismatch", "flags"))
 
 
 def replay(rep, case, body=None):
+    if case.get("_stage") == "discovered":
+        return v3hist.replay_discovered(rep, case)
     G = drivers.load()
     cfg, steps = v3hist.undescribe(case)
     try:
